@@ -1,6 +1,32 @@
-From Coq Require Import List.
-From PG Require Import Graph.MGraph C06.Model.
-(* placeholder until the proofs land *)
-Theorem c06_placeholder : forall g x y L S, inducing_model g x y L S = inducing_model g x y L S.
-Proof. reflexivity. Qed.
-Print Assumptions c06_placeholder.
+(* C06 — dag_to_mag preserves exactly the observable independence model; inducing_path is exact.
+   Statements: C06/Spec.v.  Unbounded: inducing_exact, inducing_witness, mag_nodes, mag_marks.
+   Bounded (all DAGs on <= 4 nodes, all disjoint L,S, all ordered pairs, all Z; kernel computation):
+   mag_adjacency_bounded_4, mag_independence_bounded_4 (the full unbounded statement is Spec.mag_full_stmt). *)
+From Coq Require Import List Arith Bool.
+From PG Require Import Base.ListSet Graph.MGraph Graph.MSep C06.Model C06.Spec C06.Enum C06.Proofs C06.Bounded_n4 C06.BoundedProp.
+
+Theorem inducing_exact : inducing_exact_stmt.
+Proof. exact C06.Proofs.inducing_exact. Qed.
+Print Assumptions inducing_exact.
+
+Theorem inducing_witness : inducing_witness_stmt.
+Proof. exact C06.Proofs.inducing_witness. Qed.
+Print Assumptions inducing_witness.
+
+Theorem mag_nodes : mag_nodes_stmt.
+Proof. exact C06.Proofs.mag_nodes. Qed.
+Print Assumptions mag_nodes.
+
+Theorem mag_marks : mag_marks_stmt.
+Proof. exact C06.Proofs.mag_marks. Qed.
+Print Assumptions mag_marks.
+
+Theorem mag_adjacency_bounded_4 : forall n E L0 S0,
+  n <= 4 -> acyclicb (dag_of n E) = true -> mag_adjacency_stmt (dag_of n E) (L_of n L0) (S_of n L0 S0).
+Proof. exact mag_adjacency_bounded_4_prop. Qed.
+Print Assumptions mag_adjacency_bounded_4.
+
+Theorem mag_independence_bounded_4 : forall n E L0 S0,
+  n <= 4 -> acyclicb (dag_of n E) = true -> mag_independence_stmt (dag_of n E) (L_of n L0) (S_of n L0 S0).
+Proof. exact mag_independence_bounded_4_prop. Qed.
+Print Assumptions mag_independence_bounded_4.
